@@ -361,20 +361,40 @@ def run(ctx: Any, prog: Program) -> None:
     ctx.rule('C17.N8', 'keyvalues of a copied entity are read through fixup.substitute(), and the unknown-key arm stores the substituted text', floor=3)
     kv_loops = [n for n in walk_no_nested(co) if isinstance(n, ast.For) and isinstance(n.iter, ast.Call) and isinstance(n.iter.func, ast.Attribute) and n.iter.func.attr == 'items'
                 and isinstance(n.iter.func.value, ast.Name) and isinstance(n.target, ast.Tuple) and len(n.target.elts) == 2
-                and any(isinstance(c, ast.Call) and isinstance(c.func, ast.Attribute) and c.func.attr == 'substitute' for b in n.body for c in ast.walk(b))
                 and any(isinstance(c, ast.Call) and isinstance(c.func, ast.Attribute) and c.func.attr == 'fixup_key' for b in n.body for c in ast.walk(b))]
-    ctx.shape('C17.N8', len(kv_loops) == 1, ins, co, f'{len(kv_loops)} key-value loops with substitute() and fixup_key() found in collapse_one (1 expected)', text='key-value loop')
+    ctx.shape('C17.N8', len(kv_loops) == 1, ins, co, f'{len(kv_loops)} key-value loops with fixup_key() found in collapse_one (1 expected)', text='key-value loop')
     for kl in kv_loops:
         ent_var = kl.iter.func.value.id
         key_var, val_var = (e.id if isinstance(e, ast.Name) else '?' for e in kl.target.elts)
         outer = ins.parents.get(kl)
         scope_body = getattr(outer, 'body', [])
+        # a pre-pass `for k, v in <copy>.items(): <copy>[k] = <fixup>.substitute(v, ...)` in front of everything else substitutes every keyvalue
+        # in place; what follows then works on substituted text - and must not substitute it again (the table is applied ONCE: a fixup value
+        # that itself contains `$word` would have that word replaced or blanked by the second pass)
+        prepass = None
+        for st in scope_body:
+            if st is kl:
+                break
+            if isinstance(st, ast.For) and isinstance(st.iter, ast.Call) and isinstance(st.iter.func, ast.Attribute) and st.iter.func.attr == 'items' and dotted(st.iter.func.value) == ent_var \
+                    and isinstance(st.target, ast.Tuple) and len(st.target.elts) == 2 and all(isinstance(e, ast.Name) for e in st.target.elts):
+                pk, pv = st.target.elts[0].id, st.target.elts[1].id
+                if any(isinstance(a, ast.Assign) and any(isinstance(t, ast.Subscript) and dotted(t.value) == ent_var and dotted(t.slice) == pk for t in a.targets) and isinstance(a.value, ast.Call)
+                       and isinstance(a.value.func, ast.Attribute) and a.value.func.attr == 'substitute' and a.value.args and dotted(a.value.args[0]) == pv for b in st.body for a in ast.walk(b)):
+                    prepass = st
+        if prepass is not None:
+            again = [c for st in scope_body if st is not prepass and getattr(st, 'lineno', 0) > prepass.lineno for c in ast.walk(st)
+                     if isinstance(c, ast.Call) and isinstance(c.func, ast.Attribute) and c.func.attr == 'substitute' and c.args
+                     and (dotted(c.args[0]) == val_var or (isinstance(c.args[0], ast.Subscript) and dotted(c.args[0].value) == ent_var))]
+            ctx.check('C17.N8', not again, ins, again[0] if again else prepass, f'the keyvalues of the copy are substituted in place by the loop at line {prepass.lineno} and then once more by `{U(again[0])[:60] if again else ""}`: '
+                      'the fixup table is applied a single time - a fixup value that itself contains `$word` loses or changes that word in a second pass', text='keyvalues substituted once')
         # (a) reads of the copy's keyvalues in the same per-entity block
         for st in scope_body:
             for r in ast.walk(st):
                 if isinstance(r, ast.Subscript) and isinstance(r.ctx, ast.Load) and isinstance(r.value, ast.Name) and r.value.id == ent_var and isinstance(r.slice, ast.Constant) and isinstance(r.slice.value, str):
                     if r.slice.value.casefold() in ('classname',):
                         continue            # decides which definition is used, before any fix-up
+                    if prepass is not None and r.lineno > prepass.lineno:
+                        continue            # already substituted in place
                     wrapped = any(isinstance(a, ast.Call) and isinstance(a.func, ast.Attribute) and a.func.attr == 'substitute' for a in _anc17(ins, r, outer))
                     ctx.check('C17.N8', wrapped, ins, r, f'collapse_one computes with the raw template text `{U(r)}`: a $variable in that keyvalue is never replaced (an unparsable text silently becomes the default - '
                               f'`"{r.slice.value}" "$var"` ends up as zero)', text=f'`{U(r)}` read through substitute()')
@@ -382,7 +402,8 @@ def run(ctx: Any, prog: Program) -> None:
         first_sub = next((i for i, b in enumerate(kl.body) if isinstance(b, ast.Assign) and isinstance(b.value, ast.Call) and isinstance(b.value.func, ast.Attribute) and b.value.func.attr == 'substitute'
                           and any(isinstance(t, ast.Name) and t.id == val_var for t in b.targets) and any(isinstance(x, ast.Name) and x.id == val_var for a in b.value.args for x in ast.walk(a))), None)
         early_use = first_sub is None or any(isinstance(x, ast.Name) and x.id == val_var for b in kl.body[:first_sub] for x in ast.walk(b))
-        ctx.check('C17.N8', not early_use, ins, kl, f'the key-value loop uses `{val_var}` before (or without) replacing it by `substitute({val_var})`', text='loop value substituted first')
+        if prepass is None:
+            ctx.check('C17.N8', not early_use, ins, kl, f'the key-value loop uses `{val_var}` before (or without) replacing it by `substitute({val_var})`', text='loop value substituted first')
         # (c) the arm for keys unknown to the FGD
         for tr in [t for b in kl.body for t in ast.walk(b) if isinstance(t, ast.Try)]:
             if not any(isinstance(x, ast.Subscript) and isinstance(x.value, ast.Attribute) and x.value.attr == 'kv' for b in tr.body for x in ast.walk(b)):
@@ -537,6 +558,9 @@ def run(ctx: Any, prog: Program) -> None:
             nm = tgt.attr if isinstance(tgt, ast.Attribute) else ('planes' if isinstance(tgt, ast.Name) else U(tgt))
             ops.setdefault(nm, set()).add('localise(' + ', '.join(dotted(a) or '?' for a in n.args) + ')')
         if isinstance(n, ast.AugAssign) and isinstance(n.target, ast.Attribute):
+            recv = n.target.value
+            if isinstance(recv, ast.Attribute) and dotted(recv.value) == 'self' and recv.attr in ('uaxis', 'vaxis'):
+                continue          # a texture axis updated in place: the inline form, examined below
             ops.setdefault(n.target.attr, set()).add({ast.MatMult: '@=', ast.Add: '+=', ast.Sub: '-='}.get(type(n.op), '?=') + ' ' + (dotted(n.value) or '?'))
     # the rotation local of Side.localise: assigned from to_matrix(<angles parameter>)
     sl_or = sorted({t.id for a in walk_no_nested(sl) if isinstance(a, ast.Assign) and isinstance(a.value, ast.Call) and dotted(a.value.func) == 'to_matrix' for t in a.targets if isinstance(t, ast.Name)})
@@ -544,9 +568,43 @@ def run(ctx: Any, prog: Program) -> None:
     sl_origin = sl.args.args[1].arg if len(sl.args.args) > 1 else 'origin'
     expect = {'planes': f'localise({sl_origin}, {sl_orient})', 'uaxis': f'localise({sl_origin}, {sl_orient})', 'vaxis': f'localise({sl_origin}, {sl_orient})', 'disp_pos': f'localise({sl_origin}, {sl_orient})',
               'offset': f'@= {sl_orient}', 'normal': f'@= {sl_orient}', 'offset_norm': f'@= {sl_orient}'}
+    expect_axis = f'localise({sl_origin}, {sl_orient})'
+    # the inline form of the axis update (what UVAxis.localise does, written out on the axis object): per axis A
+    #     <r> = self.A.vec() @ <orient>;  self.A.x, self.A.y, self.A.z = <r>;  self.A.offset -= <r>.dot(origin) / self.A.scale
+    # every quantity in the shift of A belongs to A - the sibling's scale or rotated vector slides the texture by a placement-dependent amount
+    for ax in ('uaxis', 'vaxis'):
+        if ops.get(ax):
+            continue
+        shifts = [n for n in ast.walk(sl) if isinstance(n, ast.AugAssign) and isinstance(n.op, ast.Sub) and dotted(n.target) == f'self.{ax}.offset']
+        rots = {t.id: a for a in walk_no_nested(sl) if isinstance(a, ast.Assign) and isinstance(a.value, ast.BinOp) and isinstance(a.value.op, ast.MatMult) and U(a.value.left) == f'self.{ax}.vec()'
+                and dotted(a.value.right) == sl_orient for t in a.targets if isinstance(t, ast.Name)}
+        comp = [a for a in walk_no_nested(sl) if isinstance(a, ast.Assign) and isinstance(a.targets[0], ast.Tuple) and [dotted(t) for t in a.targets[0].elts] == [f'self.{ax}.x', f'self.{ax}.y', f'self.{ax}.z']
+                and isinstance(a.value, ast.Name) and a.value.id in rots]
+        if len(shifts) != 1 or len(rots) != 1 or len(comp) != 1:
+            continue          # not the inline form either: the shape report below declines
+        sh, rv_ = shifts[0], next(iter(rots))
+        other = 'vaxis' if ax == 'uaxis' else 'uaxis'
+        other_rots = {t.id for a in walk_no_nested(sl) if isinstance(a, ast.Assign) and isinstance(a.value, ast.BinOp) and U(a.value.left) == f'self.{other}.vec()' for t in a.targets if isinstance(t, ast.Name)}
+        foreign = [x for x in ast.walk(sh.value) if (isinstance(x, ast.Attribute) and dotted(x.value) == f'self.{other}') or (isinstance(x, ast.Name) and x.id in other_rots)]
+        well_formed = isinstance(sh.value, ast.BinOp) and isinstance(sh.value.op, ast.Div) and any(isinstance(x, ast.Name) and x.id == rv_ for x in ast.walk(sh.value.left)) \
+            and any(isinstance(x, ast.Name) and x.id == sl_origin for x in ast.walk(sh.value.left))
+        if foreign:
+            ctx.check('C17.N3', False, vm, sh, f'Side.localise shifts the offset of {ax} by `{U(sh.value)[:70]}`, which uses `{U(foreign[0])}` - a quantity of the other texture axis: on a face whose two scales differ the texture slides '
+                      'along this axis by an amount that depends on where the instance is placed', text=f'Side.localise {ax}')
+        elif well_formed and dotted(sh.value.right) == f'self.{ax}.scale':
+            ctx.check('C17.N3', True, vm, sh, 'inline axis update', text=f'Side.localise {ax}')
+            ops[ax] = {expect_axis}
+        else:
+            ctx.shape('C17.N3', False, vm, sh, f'inline update of {ax} (`{U(sh)[:60]}`) not recognised', text=f'Side.localise {ax}')
+            ops[ax] = {expect_axis}
+        if foreign:
+            ops[ax] = {expect_axis}
     for nm, want in expect.items():
         got = ops.get(nm, set())
         kind = 'by rotation only (it is a direction)' if want.startswith('@=') else 'with rotation and translation'
+        if nm in ('uaxis', 'vaxis') and got == {expect_axis} and want == expect_axis:
+            if not any(isinstance(n, ast.Call) and isinstance(n.func, ast.Attribute) and n.func.attr == 'localise' and U(n.func.value) == f'self.{nm}' for n in ast.walk(sl)):
+                continue          # inline form, already judged above
         if not got:
             ctx.shape('C17.N3', False, vm, sl, f'no transformation of {nm} found in Side.localise', text=f'Side.localise {nm}')
         else:
@@ -727,6 +785,10 @@ def n6_substitute(ctx: Any, vm: Any) -> None:
 
 
 MUTANTS = [
+    {'id': 'side_localise_inline_v_offset_by_u_scale', 'file': 'vmf.py', 'find': "        self.uaxis = self.uaxis.localise(origin, orient)\n        self.vaxis = self.vaxis.localise(origin, orient)\n", 'replace': "        u_axis = self.uaxis.vec() @ orient\n        v_axis = self.vaxis.vec() @ orient\n        self.uaxis.x, self.uaxis.y, self.uaxis.z = u_axis\n        self.vaxis.x, self.vaxis.y, self.vaxis.z = v_axis\n        self.uaxis.offset -= Vec.dot(u_axis, origin) / self.uaxis.scale\n        self.vaxis.offset -= Vec.dot(v_axis, origin) / self.uaxis.scale\n", 'expect': 'C17.N3'},
+    {'id': 'ok_side_localise_inline', 'file': 'vmf.py', 'find': "        self.uaxis = self.uaxis.localise(origin, orient)\n        self.vaxis = self.vaxis.localise(origin, orient)\n", 'replace': "        u_axis = self.uaxis.vec() @ orient\n        v_axis = self.vaxis.vec() @ orient\n        self.uaxis.x, self.uaxis.y, self.uaxis.z = u_axis\n        self.vaxis.x, self.vaxis.y, self.vaxis.z = v_axis\n        self.uaxis.offset -= Vec.dot(u_axis, origin) / self.uaxis.scale\n        self.vaxis.offset -= Vec.dot(v_axis, origin) / self.vaxis.scale\n", 'expect': None, 'refuse_ok': True, 'note': 'negative control: the axis update written out in place with the right scale'},
+    {'id': 'variables_expanded_up_front_and_again', 'file': 'instancing.py', 'find': "        angles = Angle.from_str(inst.fixup.substitute(new_ent['angles'], ''))\n", 'replace': "        for key, value in new_ent.items():\n            if '$' in value and key.casefold() not in ('classname', 'hammerid', 'spawnflags'):\n                new_ent[key] = inst.fixup.substitute(value, '')\n        angles = Angle.from_str(new_ent['angles'])\n", 'extra': [{'file': 'instancing.py', 'find': "            angles.pitch = srctools.conv_float(inst.fixup.substitute(new_ent['pitch'], ''))", 'replace': "            angles.pitch = srctools.conv_float(new_ent['pitch'])"}, {'file': 'instancing.py', 'find': "            angles.yaw = srctools.conv_float(inst.fixup.substitute(new_ent['yaw'], ''))", 'replace': "            angles.yaw = srctools.conv_float(new_ent['yaw'])"}], 'expect': 'C17.N8'},
+    {'id': 'ok_variables_expanded_up_front_only', 'file': 'instancing.py', 'find': "        angles = Angle.from_str(inst.fixup.substitute(new_ent['angles'], ''))\n", 'replace': "        for key, value in new_ent.items():\n            if '$' in value and key.casefold() not in ('classname', 'hammerid', 'spawnflags'):\n                new_ent[key] = inst.fixup.substitute(value, '')\n        angles = Angle.from_str(new_ent['angles'])\n", 'extra': [{'file': 'instancing.py', 'find': "            angles.pitch = srctools.conv_float(inst.fixup.substitute(new_ent['pitch'], ''))", 'replace': "            angles.pitch = srctools.conv_float(new_ent['pitch'])"}, {'file': 'instancing.py', 'find': "            angles.yaw = srctools.conv_float(inst.fixup.substitute(new_ent['yaw'], ''))", 'replace': "            angles.yaw = srctools.conv_float(new_ent['yaw'])"}, {'file': 'instancing.py', 'find': "            folded = key.casefold()\n            value = inst.fixup.substitute(value, '')\n", 'replace': "            folded = key.casefold()\n"}], 'expect': None, 'refuse_ok': True, 'note': 'negative control: one substitution pass, done up front'},
     {'id': 'classnames_from_target_map', 'file': 'instancing.py', 'find': "inst.fixup_key(vmf, EntityDef.engine_classes(), kv.type, value)", 'replace': "inst.fixup_key(vmf, vmf.by_class, kv.type, value)", 'expect': 'C17.N9'},
     {'id': 'ok_classnames_via_local', 'file': 'instancing.py', 'find': "    new_ents: list[Entity] = []\n", 'replace': "    new_ents: list[Entity] = []\n    known_classes = EntityDef.engine_classes()\n", 'extra': [{'file': 'instancing.py', 'find': "inst.fixup_key(vmf, EntityDef.engine_classes(), kv.type, value)", 'replace': "inst.fixup_key(vmf, known_classes, kv.type, value)"}], 'expect': None, 'note': 'negative control: the engine table hoisted into a local'},
     {'id': 'unknown_key_skipped_when_already_warned', 'file': 'instancing.py', 'find': "                if (classname, key) not in _UNKNOWN_KV:\n                    LOGGER.warning('Unknown keyvalue {}.{}', classname, key)\n                    _UNKNOWN_KV.add((classname, key))\n                # We don't know the type", 'replace': "                if (classname, key) in _UNKNOWN_KV:\n                    continue\n                LOGGER.warning('Unknown keyvalue {}.{}', classname, key)\n                _UNKNOWN_KV.add((classname, key))\n                # We don't know the type", 'expect': 'C17.N8'},
